@@ -1,5 +1,6 @@
 import PqlModel.Props.C12
 import PqlModel.Props.C12Fuel
+import PqlModel.Props.C13Exact
 #print axioms Pql.C12.C12_scan_progress
 #print axioms Pql.C12.C12_scan_length_le
 #print axioms Pql.C12.C12_split_shorter
@@ -8,3 +9,4 @@ import PqlModel.Props.C12Fuel
 #print axioms Pql.C12.C12_statement_fuel_bound
 #print axioms Pql.C12.C12_expr_fuel_bound
 #print axioms Pql.C12.C12_expr_fuel_slope_tight
+#print axioms Pql.C13.C13_exact_source
